@@ -657,6 +657,11 @@ def check_C11(run: Run):
         elif k_ == 1: bad = g.ctrl_matrix(qs_[0], qs_[1:3])
         else: bad = g.matrix_gate(qs_[0:2], "swap")
         cases.append({"c": {"nq": n_, "nb": 1, "stmts": pre + [bad]}})
+    # controlled gates whose target is X or Z only up to a phase (-X, iX, -Z, ...): a relative phase once controlled, not CNOT/CZ
+    from opensquirrel.ir import BlochSphereRotation as _B11
+    for ax_, ph_ in (((1, 0, 0), -math.pi / 2), ((-1, 0, 0), math.pi / 2), ((1, 0, 0), 0.0), ((1, 0, 0), math.pi), ((0, 0, 1), -math.pi / 2), ((0, 0, -1), math.pi / 2), ((0, 0, 1), 0.0)):
+        for a_, b_ in ((0, 1), (1, 0)):
+            cases.append({"c": {"nq": 2, "nb": 1, "stmts": [W.w_stmt(dg.X90(a_)), W.w_stmt(_CG11(a_, _B11(b_, ax_, math.pi, ph_)))]}})
     for th in (-0.5, 0.5, 2.0, -2.0):       # the negated-axis forms merging produces
         r0 = O.impl_merge({"nq": 1, "nb": 1, "stmts": [W.w_stmt(dg.Rz(0, Float(th)))]})
         cases.append({"c": r0["c"]})
